@@ -61,6 +61,11 @@ def main():
         for scale, ascale in ((1.0, 1.0), (0.25, 3.0)):
             freq = np.arange(1, n + 1, dtype=float) * scale
             replay_scope(run, hvsrpy, by_range, freq, scale, ascale, rng, stride, cfg)
+    # ---- the objects AROUND the one whose range is changed (spec/TraceResultHeap.tla): a range update re-evaluates the peaks of its
+    #      target and of nothing else; objects assembled from others sit on storage of their own
+    import resultheap
+    resultheap.run_sessions(run, hvsrpy, "C08-result-heap", dict(new_trad=1, new_diffuse=1, assemble=3, update_range=8, reject=1, read_only=3, read=1),
+                            dict(statistics=2, mean_curve_peak_bounded=3, single_panel=1, summary=1, write=1), 12 if run.quick else 120, 16, "result-heap")
     mean_peak_after_rejection_range(run)
     return run.finish(
         rule="every (curve in Levels^N, lo, hi on the half-step lattice incl. None/inverted/out-of-grid) "
